@@ -121,6 +121,19 @@ pub fn generate(args: &Args) -> Vec<String> {
         "(L (frag (dtext 0) (frag (dview 0 (alt (frag (text 97) (dtext 1))) (alt))) (show 1 (show 0 (dtext 1)))))",
         "(L (el 112 (A) (C (show 0 (dview 0 (alt (text 97)) (alt (text 98)))) (dview 0 (alt (show 0 (text 99))) (alt (show 1 (text 100)))))))",
     ];
+    // input-less dynamic regions (closures that read no signal) around reactive content; signal 2 is never written
+    let fam0 = [
+        "(L (dview0 2 (alt (dtext 0) (el 100 (A (99 (d 1))) (C (dtext 1))))))",
+        "(L (el 117 (A) (C (dview0 2 (alt (el 108 (A) (C (dtext 0))) (el 108 (A (104 (b 1))) (C (text 98))))))))",
+        "(L (dview0 2 (alt (dview 0 (alt (text 97)) (alt (dtext 1)))) (alt (text 120))) (dtext 0))",
+        "(L (dview0 2 (alt (show 0 (dtext 1)) (dview0 2 (alt (dtext 0))))))",
+        "(L (dview 1 (alt (dview0 2 (alt (dtext 0) (dtext 1)))) (alt (text 98))))",
+    ];
+    for f in fam0 {
+        for (st, ws) in [("0,0,0", "0=1,1=1,0=2,1=2,0=3,1=0"), ("1,1,1", "1=2,0=0,0=1,1=3,1=3"), ("3,2,0", "0=3,0=4,1=5,0=6")] {
+            l.push(format!("view run {f} {st} {ws}"));
+        }
+    }
     for f in fam {
         for (st, ws) in [("0,0", "0=1,1=1,0=2,1=2,0=3,1=0"), ("1,1", "1=2,0=0,0=1,1=3,1=3"), ("3,2", "0=3,0=4,1=5,0=6")] {
             l.push(format!("view run {f} {st} {ws}"));
@@ -132,7 +145,7 @@ pub fn generate(args: &Args) -> Vec<String> {
         let mut budget = 12;
         let k = 1 + rng.below(2);
         let vds: Vec<VD> = (0..k).map(|_| gen(&mut rng, 4, nsig, &mut budget)).collect();
-        let store: Vec<String> = (0..nsig).map(|_| rng.below(4).to_string()).collect();
+        let store: Vec<String> = (0..nsig + 1).map(|_| rng.below(4).to_string()).collect();
         let nw = 1 + rng.below(8);
         let ws: Vec<String> = (0..nw).map(|_| format!("{}={}", rng.below(nsig), rng.below(7))).collect();
         l.push(format!("view run (L{}) {} {}", vds.iter().map(|v| format!(" {}", sx(v))).collect::<String>(), store.join(","), ws.join(",")));
